@@ -694,8 +694,11 @@ func runC16(w *World, c *Check) {
 		fa := NewFuncAn(w, fn)
 		fk := FuncKey(fn)
 		realm := `φ\(realm\|recv\.LibDefaults\.DefaultRealm\)|φ\(recv\.LibDefaults\.DefaultRealm\|realm\)`
-		g := fa.MatchGuard(EqPass(`recv\.Realms\[\$i\d+\]\.Realm`, realm))
-		c.Decide(len(g) == 1, "C16.select", fk, "realm-equality", w.Pos(fn.Pos()), "the realm entry is selected by equality of its name with the argument (the default realm for \"\")", "equality test not found: "+fa.condSummary())
+		ng := 0
+		for _, sub := range fa.withNewHelpers() {
+			ng += len(sub.MatchGuard(EqPass(`recv\.Realms\[\$i\d+\]\.Realm`, realm)))
+		}
+		c.Decide(ng == 1, "C16.select", fk, "realm-equality", w.Pos(fn.Pos()), "the realm entry is selected by equality of its name with the argument (the default realm for \"\")", "equality test not found: "+fa.condSummary())
 		dflt := fa.MatchGuard(EqPass(`""`, `realm`))
 		c.Decide(len(dflt) == 1, "C16.select", fk, "default-realm", w.Pos(fn.Pos()), "an empty realm argument means libdefaults default_realm", "test not found")
 		okCnt := false
@@ -716,24 +719,9 @@ func runC16(w *World, c *Check) {
 			if bi, isB := ln.Call.Value.(*ssa.Builtin); !isB || bi.Name() != "len" {
 				continue
 			}
-			// the list is the KDC field of the selected realm entry (through the loop's phi)
-			var leaves []string
-			seen := map[ssa.Value]bool{}
-			var walk func(v ssa.Value)
-			walk = func(v ssa.Value) {
-				if seen[v] {
-					return
-				}
-				seen[v] = true
-				if phi, isPhi := v.(*ssa.Phi); isPhi {
-					for _, e := range phi.Edges {
-						walk(e)
-					}
-					return
-				}
-				leaves = append(leaves, fa.R.R(v))
-			}
-			walk(list)
+			// the list is the KDC field of the selected realm entry (through the loop's phi, or the
+			// result of a helper that holds the loop)
+			leaves := fa.LeafTerms(list)
 			fromKDC := false
 			for _, l := range leaves {
 				if strings.HasSuffix(l, ".KDC") && strings.HasPrefix(l, "recv.Realms[") {
@@ -752,8 +740,11 @@ func runC16(w *World, c *Check) {
 	} else {
 		fa := NewFuncAn(w, fn)
 		fk := FuncKey(fn)
-		g := fa.MatchGuard(EqPass(`recv\.Realms\[\$i\d+\]\.Realm`, `realm`))
-		c.Decide(len(g) == 1, "C16.select", fk, "realm-equality", w.Pos(fn.Pos()), "the realm entry is selected by equality of its name with the argument", "equality test not found: "+fa.condSummary())
+		ng := 0
+		for _, sub := range fa.withNewHelpers() {
+			ng += len(sub.MatchGuard(EqPass(`recv\.Realms\[\$i\d+\]\.Realm`, `realm`)))
+		}
+		c.Decide(ng == 1, "C16.select", fk, "realm-equality", w.Pos(fn.Pos()), "the realm entry is selected by equality of its name with the argument", "equality test not found: "+fa.condSummary())
 		okSrc := false
 		for _, ci := range fa.Calls(`config\.randServOrder`) {
 			a := fa.CallArgs(ci)
@@ -763,8 +754,8 @@ func runC16(w *World, c *Check) {
 		}
 		c.Decide(okSrc, "C16.select", fk, "kpasswd-list", w.Pos(fn.Pos()), "the servers ordered are the realm's kpasswd_server list (or admin servers on port 464 when it is empty)", "randServOrder is not applied to a value derived from KPasswdServer")
 		okAdm := false
-		for _, ci := range fa.Calls(`net\.SplitHostPort`) {
-			a := fa.CallArgs(ci)
+		for _, dc := range fa.CallsDeep(`net\.SplitHostPort`) {
+			a := dc.fa.CallArgs(dc.ci)
 			if len(a) == 1 && strings.Contains(a[0], ".AdminServer") || (len(a) == 1 && strings.Contains(a[0], "$L")) {
 				okAdm = true
 			}
@@ -818,6 +809,33 @@ func runC16(w *World, c *Check) {
 						}
 					}
 					ok3 = asc && init && len(phi.Edges) == 2
+				}
+			}
+		}
+		if !ok2 && !ok3 && len(lookups) >= 2 {
+			// the other spelling: a loop-carried remainder that loses its leading label each turn —
+			// rest = rest[Index(rest, ".")+1:], starting from the name, stopping when no dot is left —
+			// and the key "." + rest. Longest-first holds by construction (the remainder only shrinks).
+			if bo, isB := lookups[1].Index.(*ssa.BinOp); isB && bo.Op == token.ADD && fa.R.R(bo.X) == `"."` {
+				if sl, isSl := bo.Y.(*ssa.Slice); isSl && sl.High == nil && sl.Low != nil {
+					if phi, isPhi := sl.X.(*ssa.Phi); isPhi && len(phi.Edges) == 2 {
+						init, step := false, false
+						for _, e := range phi.Edges {
+							if e == ssa.Value(sl) {
+								step = true
+							} else if fa.R.R(e) == dn {
+								init = true
+							}
+						}
+						lo := fa.R.R(sl.Low)
+						idx := `strings.Index(` + fa.R.R(phi) + `, ".")`
+						if init && step && (lo == "(1 + "+idx+")" || lo == "("+idx+" + 1)") {
+							// the loop is left when no dot remains
+							if g := fa.MatchGuard(GuardPat{Kind: "gt", X: "0", Y: q(idx), PassWhen: false}); len(g) > 0 && fa.PathToInstrAvoiding(g, lookups[1]) == nil {
+								ok2, ok3 = true, true
+							}
+						}
+					}
 				}
 			}
 		}
